@@ -13,7 +13,7 @@ from ..cfg import CFG, ENTRY, EXIT, RAISE
 from ..core import Ctx
 from ..flow import AV
 from ..model import AnalysisError, FuncInfo, canon, dotted, norm, walk_no_nested, body_stmts, kwarg
-from .common import bound_args, check_annotator_key, check_annotator_order, conditions_at, enclosing, is_cmp, expand_locals, prog, quant_norm, resolve_local
+from .common import bound_args, check_annotator_key, check_annotator_order, check_segment_verbatim, conditions_at, enclosing, is_cmp, expand_locals, prog, quant_norm, resolve_local
 
 RI_FIELDS = ("_annotations", "_categories", "bound_inf", "bound_sup")
 # named friend sites outside class Continuum that may write the representation, one reason each
@@ -317,6 +317,7 @@ def rule_add(ctx: Ctx):
     p_ann, p_seg, p_lab = params[1], params[2], params[3]
     cfg = CFG(f.node)
     check_annotator_key(ctx, "R-C13-3")
+    check_segment_verbatim(ctx, "R-C13-3")
     guards = add_guard_obligation(ctx, "R-C13-3")
     fl = p.flow(f)
     # (b) insertion on every normal exit
